@@ -413,3 +413,14 @@ func regexpFind(s, re string) string {
 func regexpGroups(s, re string) []string {
 	return regexp.MustCompile(re).FindStringSubmatch(s)
 }
+
+// regexpGroupsAll returns the first capture group of every match.
+func regexpGroupsAll(s, re string) []string {
+	var out []string
+	for _, m := range regexp.MustCompile(re).FindAllStringSubmatch(s, -1) {
+		if len(m) >= 2 {
+			out = append(out, m[1])
+		}
+	}
+	return out
+}
